@@ -17,6 +17,7 @@ import Fir.Proofs.TwoPassLemmas
 import Fir.Proofs.IdealFilterLemmas
 import Fir.Proofs.TwoPass16Lemmas
 import Fir.Proofs.FloatLemmas
+import Fir.Proofs.SignLemmas
 
 namespace Fir.C18
 open Fir
@@ -277,6 +278,22 @@ theorem float_range (fl : ℚ → ℚ) (hfl : Monotone fl) (k : ℕ → ℚ) (hk
     (hx : ∀ i, lo ≤ x i ∧ x i ≤ hi) (t : Shape) :
     t.eval fl (fun _ => lo) k ≤ t.eval fl x k ∧ t.eval fl x k ≤ t.eval fl (fun _ => hi) k :=
   ⟨eval_mono fl hfl k hk _ _ (fun i => (hx i).1) t, eval_mono fl hfl k hk _ _ (fun i => (hx i).2) t⟩
+
+/-! ### signs survive every rounding: non-negative kernel ⇒ non-negative weights and coefficients -/
+
+/-- the running sum `ww += w` of non-negative kernel values is non-negative for every monotone rounding
+    with `fl 0 = 0` (so `ww != 0.` means `ww > 0`) -/
+theorem weight_sum_nonneg (fl : ℚ → ℚ) (hfl : Monotone fl) (h0 : fl 0 = 0) (ws : List ℚ) (hw : ∀ w ∈ ws, 0 ≤ w) :
+    0 ≤ ws.foldl (fun s w => fl (s + w)) 0 :=
+  Fir.Proofs.sum_weights_nonneg fl hfl h0 ws hw 0 (le_refl 0)
+
+/-- `w /= ww` and `(w * 2^p).round() as i16 / i32`: a non-negative kernel value gives a non-negative
+    normalised weight and a non-negative integer coefficient, whatever the magnitudes and roundings -
+    the hypothesis `hk` of the monotonicity / range theorems above, for Box, Bilinear (proved non-negative)
+    and for Hamming, Gaussian (sign of the f64 evaluation checked on the real coefficients) -/
+theorem nonneg_weights (fl : ℚ → ℚ) (hfl : Monotone fl) (h0 : fl 0 = 0) (w ww P : ℚ) (hw : 0 ≤ w) (hww : 0 < ww) (hP : 0 ≤ P) :
+    0 ≤ fl (w / ww) ∧ 0 ≤ Fir.Proofs.roundHalfAway (fl (fl (w / ww) * P)) :=
+  Fir.Proofs.nonneg_weights fl hfl h0 w ww P hw hww hP
 
 /-! ### non-vacuity -/
 example : passInt .u8 [8192, 8192] [10, 20] 14 ≤ passInt .u8 [8192, 8192] [10, 21] 14 := by decide
